@@ -348,7 +348,12 @@ def main():
 
     for f in json.load(open("known_findings.json")).get("findings", []) if os.path.exists("known_findings.json") else []:
         if f.get("property") == prop and f.get("status") == "open":
-            print("KNOWN-FINDING: property=%s %s" % (prop, f.get("what", f.get("signature"))))
+            still = ""
+            if f.get("replay") and os.path.exists(f["replay"]):
+                rj = json.load(open(f["replay"]))
+                rr = sh([sims.get(rj.get("variant", "prod")) or build(rj.get("variant", "prod")), "replay", f["replay"]], stdout=subprocess.PIPE, stderr=subprocess.DEVNULL, text=True)
+                still = " [replay %s: %s]" % (f["replay"], "still reproduces" if rr.returncode == 1 else "no longer reproduces")
+            print("KNOWN-FINDING: property=%s %s%s" % (prop, f.get("what", f.get("signature")), still))
     if fault:
         print("HARNESS-FAULT: %s" % fault)
         sys.exit(2)
